@@ -50,7 +50,11 @@ def run_cases(cases, res, stratum):
                     else: xp.config.hex_prefix = pre
                     st = xp.bin() if kind == 'bin' else xp.hex()
                     y = fx.Fxp(None, s, n, nf); y.set_val(st, raw=True)
-                    cfgrt[(kind, pre)] = (st, lib.codes_of(y)[0])
+                    got_codes = [lib.codes_of(y)[0], lib.codes_of(fx.Fxp(st, s, n, nf, raw=True))[0]]        # set_val and the constructor
+                    if kind == 'bin':       # ... and from_bin, as a method and as the function of the package
+                        y2 = fx.Fxp(None, s, n, nf); y2.from_bin(st, raw=True); got_codes.append(lib.codes_of(y2)[0])
+                        got_codes.append(lib.codes_of(fx.from_bin(st, signed=s, n_word=n, n_frac=nf, raw=True))[0])
+                    cfgrt[(kind, pre)] = (st, code if all(g == code for g in got_codes) else next(g for g in got_codes if g != code))
             obs['cfgrt'] = cfgrt
             xn = A.mk(fx, np, s, n, nf, code); xn.config.hex_prefix = None; obs['hex_noprefix'] = xn.hex()
             # round trips
